@@ -107,12 +107,6 @@ Proof.
   constructor; [apply method_table_facts | apply class_chain_Inv].
 Qed.
 
-Lemma member_chain_Inv ws c m d : Forall Inv (member_chain ws c m d).
-Proof.
-  unfold member_chain. destruct (find_entity ws d); [|constructor].
-  destruct (ci_eqb d c); [apply scope_chain_Inv | apply class_chain_Inv].
-Qed.
-
 (* ---------- specification ---------- *)
 
 (* latest declaration of the name, ignoring case *)
@@ -437,25 +431,86 @@ Proof.
   unfold to_target; simpl. rewrite dtag_var, (proj1 (proj2 (method_table_facts e me))). reflexivity.
 Qed.
 
-Theorem definition_member_spec ws c m d id :
-  special ws id = false ->
-  ci_eqb d c = false \/ find_last v_name id (vars_of ws c m) = None ->
-  definition_member ws c m d id = members_all ws d id.
+(* class_level_table: above the method's table sits the class's table, whose parent is for
+   another class *)
+Lemma ancestors_head_pair fuel ws c e e' rest :
+  ancestors fuel ws c = e :: e' :: rest -> str_eqb (e_name e') (e_name e) = false.
 Proof.
-  intros Hs Hg. unfold definition_member, member_chain.
-  destruct (find_entity ws d) as [e|] eqn:Ed.
-  - destruct (ci_eqb d c) eqn:Edc.
-    + destruct Hg as [Hg|Hg]; [discriminate|].
-      rewrite (scope_chain_all ws c m id Hs), Hg. simpl.
-      unfold members_all. rewrite (lineage_ci ws d c Edc). reflexivity.
-    + apply resolve_member_spec. exact Hs.
-  - unfold members_all. rewrite (lineage_not_indexed ws d Ed). reflexivity.
+  destruct fuel as [|f]; simpl; [discriminate|].
+  destruct (find_entity ws c) as [e0|]; [|discriminate].
+  destruct (e_parent e0) as [p|]; [|discriminate].
+  destruct (ci_eqb p (e_name e0)) eqn:Ep; [discriminate|].
+  intro H. inversion H; subst e0. clear H. rename H2 into H.
+  destruct f as [|f]; simpl in H; [discriminate|].
+  destruct (find_entity ws p) as [e1|] eqn:E1; [|discriminate].
+  inversion H; subst e1. apply find_entity_in in E1 as [_ E1].
+  apply str_eqb_neq. intro Heq. rewrite Heq in E1. rewrite ci_eqb_sym in E1. congruence.
 Qed.
 
-(* the general shape, own class included: the variable of that name first *)
-Theorem definition_member_own ws c m id :
+Lemma class_level_class_chain ws c : class_level (class_chain ws c) = class_chain ws c.
+Proof.
+  unfold class_chain, lineage. destruct (ancestors (length ws) ws c) as [|e [|e' rest]] eqn:E; try reflexivity.
+  simpl. rewrite !root_table_cls, (ancestors_head_pair _ _ _ _ _ _ E). reflexivity.
+Qed.
+
+Lemma lineage_head ws c e : find_entity ws c = Some e -> exists rest, lineage ws c = e :: rest.
+Proof.
+  intro H. unfold lineage. destruct ws as [|x ws]; [discriminate|].
+  cbn [length ancestors]. rewrite H. eexists. reflexivity.
+Qed.
+
+Lemma class_level_cons s p ps :
+  str_eqb (cls p) (cls s) = true -> class_level (s :: p :: ps) = class_level (p :: ps).
+Proof. intro H. cbn [class_level]. rewrite H. reflexivity. Qed.
+
+Lemma class_level_scope_chain ws c m : class_level (scope_chain ws c m) = class_chain ws c.
+Proof.
+  unfold scope_chain. destruct (find_entity ws c) as [e|] eqn:Ec; [|apply class_level_class_chain].
+  destruct m as [mn|]; [|apply class_level_class_chain].
+  destruct (find_method e mn) as [me|]; [|apply class_level_class_chain].
+  destruct (lineage_head ws c e Ec) as (rest & Hl).
+  pose proof (class_level_class_chain ws c) as H. unfold class_chain in *. rewrite Hl in *.
+  simpl map in *. rewrite class_level_cons; [exact H|].
+  rewrite root_table_cls, (proj1 (proj2 (method_table_facts e me))). apply str_eqb_refl.
+Qed.
+
+(* the table the services use for a member of class d, from anywhere: the table of d *)
+Lemma member_chain_eq ws c m d :
+  member_chain ws c m d = match find_entity ws d with None => [] | Some _ => class_chain ws d end.
+Proof.
+  unfold member_chain. destruct (find_entity ws d); [|reflexivity].
+  destruct (ci_eqb d c) eqn:E; [|reflexivity].
+  rewrite class_level_scope_chain. unfold class_chain. rewrite (lineage_ci ws d c E). reflexivity.
+Qed.
+
+Lemma member_chain_class_chain ws c m d : member_chain ws c m d = class_chain ws d.
+Proof.
+  rewrite member_chain_eq. destruct (find_entity ws d) eqn:E; [reflexivity|].
+  unfold class_chain. rewrite (lineage_not_indexed ws d E). reflexivity.
+Qed.
+
+Theorem definition_member_spec ws c m d id :
+  special ws id = false -> definition_member ws c m d id = members_all ws d id.
+Proof.
+  intro Hs. unfold definition_member. rewrite member_chain_class_chain.
+  apply resolve_member_spec. exact Hs.
+Qed.
+
+Theorem definition_method_name_spec ws c mn :
+  special ws mn = false -> definition_method_name ws c mn = members_all ws c mn.
+Proof.
+  intro Hs. unfold definition_method_name. rewrite class_level_scope_chain.
+  apply resolve_member_spec. exact Hs.
+Qed.
+
+Theorem definition_member_name_spec ws c id :
+  special ws id = false -> definition_member_name ws c id = members_all ws c id.
+Proof. intro Hs. apply resolve_member_spec. exact Hs. Qed.
+
+(* the step before fix 945552f: the variable of that name came first *)
+Theorem old_member_chain_own ws c m id :
   special ws id = false ->
-  definition_member ws c m c id =
+  map to_target (search_all (member_chain_old ws c m c) id) =
   match find_entity ws c with
   | None => []
   | Some _ =>
@@ -463,22 +518,11 @@ Theorem definition_member_own ws c m id :
       ++ members_all ws c id
   end.
 Proof.
-  intro Hs. unfold definition_member, member_chain.
+  intro Hs. unfold member_chain_old.
   destruct (find_entity ws c); [|reflexivity].
   replace (ci_eqb c c) with true by (symmetry; apply str_eqb_refl).
   apply scope_chain_all. exact Hs.
 Qed.
-
-Theorem definition_method_header_spec ws c mn id :
-  special ws id = false ->
-  definition_method_header ws c mn id =
-  (match find_last v_name id (vars_of ws c (Some mn)) with Some v => [(owner_name ws c, v_tag v)] | None => [] end)
-  ++ members_all ws c id.
-Proof. intro Hs. apply scope_chain_all. exact Hs. Qed.
-
-Theorem definition_field_name_spec ws c id :
-  special ws id = false -> definition_member_name ws c MField id = members_all ws c id.
-Proof. intro Hs. apply resolve_member_spec. exact Hs. Qed.
 
 (* ---------- targets are declarations of that name ---------- *)
 
@@ -697,72 +741,9 @@ Proof.
     + rewrite is_member_kind_member. exact Hk.
 Qed.
 
-(* in its context: another class's table is used as it is *)
-Theorem completion_member_other ws c m d :
-  ci_eqb d c = false -> completion_member ws c m d = complete_after_dot ws d.
-Proof.
-  intro E. unfold completion_member, complete_after_dot, member_chain. rewrite E.
-  destruct (find_entity ws d) eqn:Ed; [reflexivity|].
-  unfold class_chain. rewrite (lineage_not_indexed ws d Ed). reflexivity.
-Qed.
-
-(* own class: the method's variables come first in the chain; they are listed by no kind filter of
-   the member listing, but they hide the members of the same name *)
-Lemma live_in s x : Inv s -> In x (live s) -> In x (syms s).
-Proof. intros Hi H. rewrite (live_spec_eq s Hi) in H. apply live_spec_in. exact H. Qed.
-
-Lemma filter_all {A} (q : A -> bool) l : (forall x, In x l -> q x = true) -> filter q l = l.
-Proof.
-  induction l as [|x l IH]; simpl; intro H; [reflexivity|].
-  rewrite (H x) by auto. f_equal. apply IH. auto.
-Qed.
-
-Lemma filter_none {A} (q : A -> bool) l : (forall x, In x l -> q x = false) -> filter q l = [].
-Proof.
-  induction l as [|x l IH]; simpl; intro H; [reflexivity|].
-  rewrite (H x) by auto. apply IH. auto.
-Qed.
-
-(* the names of the method's variables that are in the way *)
-Definition vars_apart (ws : workspace) (c : str) (m : option str) (chain_syms : list sym) : Prop :=
-  forall v x, In v (vars_of ws c m) -> In x chain_syms -> ci_eqb (v_name v) (sid x) = false.
-
-Lemma collect_under_method e me ps :
-  (forall v x, In v (me_params me ++ me_locals me) -> In x (collect ps) -> ci_eqb (v_name v) (sid x) = false) ->
-  filter is_member_kind (collect (method_table e me :: ps)) = filter is_member_kind (collect ps) /\
-  filter is_plain_kind (collect (method_table e me :: ps)) =
-  live (method_table e me) ++ filter is_plain_kind (collect ps).
-Proof.
-  intro Hd. destruct (method_table_facts e me) as (Hsy & _ & Hi).
-  assert (Hlive : forall y, In y (live (method_table e me)) ->
-                  exists v, In v (me_params me ++ me_locals me) /\ y = sym_of_var v).
-  { intros y Hy. apply (live_in _ _ Hi) in Hy. rewrite Hsy in Hy.
-    apply in_map_iff in Hy as (v & <- & Hv). exists v. auto. }
-  assert (Hseen : filter (fun x => negb (seen_in (live (method_table e me)) x)) (collect ps) = collect ps).
-  { apply filter_all. intros x Hx. apply negb_true_iff.
-    destruct (seen_in (live (method_table e me)) x) eqn:E; [|reflexivity].
-    apply existsb_exists in E as (y & Hy & Hm). destruct (Hlive y Hy) as (v & Hv & ->).
-    pose proof (Hd v x Hv Hx) as H. unfold ci_eqb in H. simpl in Hm. congruence. }
-  simpl. rewrite !filter_app, Hseen. split.
-  - rewrite filter_none; [reflexivity|]. intros y Hy. destruct (Hlive y Hy) as (v & _ & ->).
-    apply is_member_kind_var.
-  - f_equal. apply filter_all. intros y Hy. destruct (Hlive y Hy) as (v & _ & ->).
-    apply is_plain_kind_var.
-Qed.
-
-Theorem completion_member_own ws c m :
-  vars_apart ws c m (collect (class_chain ws c)) ->
-  completion_member ws c m c = complete_after_dot ws c.
-Proof.
-  intro Hd. unfold completion_member, complete_after_dot, member_chain.
-  replace (ci_eqb c c) with true by (symmetry; apply str_eqb_refl).
-  unfold vars_apart, scope_chain, vars_of in *.
-  destruct (find_entity ws c) as [e|] eqn:Ec.
-  2:{ unfold class_chain. rewrite (lineage_not_indexed ws c Ec). reflexivity. }
-  destruct m as [mn|]; [|reflexivity].
-  destruct (find_method e mn) as [me|]; [|reflexivity].
-  rewrite (proj1 (collect_under_method e me (class_chain ws c) Hd)). reflexivity.
-Qed.
+(* in its context: always the listing of the operand's class *)
+Theorem completion_member_spec ws c m d : completion_member ws c m d = complete_after_dot ws d.
+Proof. unfold completion_member, complete_after_dot. rewrite member_chain_class_chain. reflexivity. Qed.
 
 (* ---------- C11: elsewhere in a method body ---------- *)
 
